@@ -17,6 +17,25 @@ CHECKS = {
     ),
 }
 
+CHECKS["C06"] = dict(
+    category="model_checking",
+    text="One inductive step of the real ToySimulation.step() from an arbitrary TOY state (accumulator, pc, entire 4096x16 memory, any 16-bit word in the instruction register, last-instruction address all symbolic) against refs/toy_ref: accumulator, memory, pc, halt condition, decode of the executed and of the fetched word, cycle/instruction/branch counters. Self-modification is covered because the fetch reads the post-store memory; induction gives programs of any length.",
+    design_ref="5/C06",
+    note="Trusted: z3, fixedint model (validated each run), refs/toy_ref.py. Bound: one step from an arbitrary state (inductive).",
+)
+CHECKS["C18"] = dict(
+    category="model_checking",
+    text="One inductive step of the real Memory.read_*/write_* (RISC-V and TOY configurations) from an arbitrary store (presence and content of every cell symbolic), arbitrary address in [-2^33,2^33] (unaligned, negative, >= 2^32) and value: little-endian composition, modulo-2^32 addressing, MemoryAddressError exactly when a touched address is outside the range, nothing changes for accesses entirely outside, wrong-width functions refuse; plus write-then-read at overlapping addresses.",
+    design_ref="5/C18",
+    note="Trusted: z3, fixedint model, the sequential little-endian reference inside checks/c18.py. Induction over operations gives all histories.",
+)
+CHECKS["C20"] = dict(
+    category="model_checking",
+    text="From one arbitrary TOY state, step(), first_cycle_step()+second_cycle_step() and single_step()x2 are run on three copies; z3 proves the complete snapshots equal (state, counters, visualisation values, svg update list, and - on a small unified memory - memory-table rows and register representations). Out-of-order calls raise StepSequenceError and leave the snapshot unchanged; all drivers are inert on done states.",
+    design_ref="5/C20",
+    note="Trusted: z3, fixedint model, CPython renderers (placeholders). Bounds: one instruction boundary from an arbitrary state (inductive); table clause on a 2-word (quick) / 4-word (thorough) memory with concrete opcodes per cell.",
+)
+
 PLANNED = {}
 
 ALL = ["C%02d" % i for i in range(1, 21)]
